@@ -194,6 +194,7 @@ class C14(Check):
     anchors = []
     coverage_cases = 2500
     trusted_base = ["models Model/Checksum.lean, Model/PacketLayout.lean, Model/PacketHdr.lean (10 classes), Model/PacketExt.lean (12 more classes: llc, mpls, lldp, eapol, eap, ipv6, icmpv6, echo6, gre, vxlan, igmp, rip) hand-written from pox/lib/packet; tied by this correspondence run",
+                    "harness/c14.py detect_variant: whether the tree has the proposed repairs D50 (RIP metric struct 'I') / D49 (EAP request/response keep their body) is read off the source (ast shapes, unknown shape = error); the driver evaluates the model at that variant (XCfg) and the correspondence validates the choice",
                     "the driver answers every stack from the extended model and, for stacks of the ten original classes, refuses to answer unless the original model (the one the chain theorem is about) gives the identical result",
                     "RFC 1071 transcription `Pox.Checksum.rfc1071` (Lean) and `rfc1071` (harness/c14.py), cross-checked against each other on every cksum case",
                     "the harness's own wire-format walker (wire_check) for the positions of length/checksum fields"]
@@ -224,8 +225,43 @@ class C14(Check):
         self.packet_base = self.m["packet_base"].packet_base
         self.checksum = self.m["packet_utils"].checksum
         self.pkgdir = os.path.join(common.REPO, "pox", "lib")
+        self.variant = self.detect_variant()
         # name-based anchors: resolved by common.AnchorCoverage with ast on every run (robust to line shifts)
         self.anchors = [("pox/lib/packet/%s.py" % mod, f) for mod, funcs in self.ANCHOR_FUNCS.items() for f in funcs]
+
+    # which of the proposed repairs that change *modelled* behaviour the tree under test has (fixes/C14_D50_rip_metric_unsigned.diff,
+    # fixes/C14_D49_eap_keep_type_data.diff): read off the source with ast, statement shapes pattern-checked; an unknown shape is an
+    # error, never a guess.  The driver evaluates the model at that variant (Model/PacketExt.lean XCfg) and the correspondence run
+    # validates the choice.  The other repairs (D45-D48) only touch code the model declines, so they need no variant.
+    def detect_variant(self):
+        import ast
+        def funcs(mod, cls):
+            tree = ast.parse(open(os.path.join(common.REPO, "pox/lib/packet/%s.py" % mod)).read())
+            c = [n for n in tree.body if isinstance(n, ast.ClassDef) and n.name == cls][0]
+            return {f.name: f for f in c.body if isinstance(f, ast.FunctionDef)}
+        # --- RIP metric format
+        f = funcs("rip", "RIPEntry")
+        fmts = []
+        for fn, call in (("hdr", "pack"), ("parse", "unpack")):
+            cs = [n for n in ast.walk(f[fn]) if isinstance(n, ast.Call) and ast.unparse(n.func) == "struct." + call]
+            if len(cs) != 1 or not isinstance(cs[0].args[0], ast.Constant): raise RuntimeError("RIPEntry.%s: struct.%s call not recognised" % (fn, call))
+            fmts.append(cs[0].args[0].value)
+        if fmts == ["!HHiiii", "!HHiiii"]: rip_unsigned = False
+        elif fmts == ["!HHiiiI", "!HHiiiI"]: rip_unsigned = True
+        else: raise RuntimeError("RIPEntry hdr/parse formats %r are a shape the C14 model does not know" % (fmts,))
+        # --- EAP request/response bodies
+        f = funcs("eap", "eap")
+        shapes = {"self.type, = struct.unpack('!B', raw[self.MIN_LEN:self.MIN_LEN + 1])": False,
+                  "self.type, = struct.unpack('!B', raw[self.MIN_LEN:self.MIN_LEN + 1])\nself.next = raw[self.MIN_LEN:]": True}
+        found = []
+        for n in ast.walk(f["parse"]):
+            if isinstance(n, ast.If) and ast.unparse(n.test) in ("self.code == self.REQUEST_CODE", "self.code == self.RESPONSE_CODE"):
+                text = "\n".join(ast.unparse(x) for x in n.body)
+                if "self.type" in text:
+                    if text not in shapes: raise RuntimeError("eap.parse request/response branch has a shape the C14 model does not know:\n" + text)
+                    found.append(shapes[text])
+        if len(found) != 2 or found[0] != found[1]: raise RuntimeError("eap.parse: request/response branches not recognised (%r)" % (found,))
+        return {"rip_unsigned": rip_unsigned, "eap_body": found[0]}
 
     # ------------------------------------------------------------------ building real objects from a layer list
     def build(self, layers):
@@ -596,8 +632,8 @@ class C14(Check):
             return {"op": "cksum", "data": case["data"], "start": case["start"], "skip": case["skip"]}
         if not self.modelled(case): return None
         if case["kind"] == "mutparse":
-            return {"op": "mutparse", "top": case["top"], "mut": case["mut"], "layers": [self._mlayer(L) for L in case["layers"]]}
-        return {"op": "stack", "top": case["top"], "layers": [self._mlayer(L) for L in case["layers"]]}
+            return {"op": "mutparse", "top": case["top"], "mut": case["mut"], "cfg": self.variant, "layers": [self._mlayer(L) for L in case["layers"]]}
+        return {"op": "stack", "top": case["top"], "cfg": self.variant, "layers": [self._mlayer(L) for L in case["layers"]]}
 
     def model_obs(self, case, resp):
         if case["kind"] == "mutparse":
@@ -1210,7 +1246,7 @@ class C14(Check):
         for c in self.generate(rng, "thorough"): yield c
 
     def extra_evidence(self):
-        return {"malformed_stream_cases_outside_model": self.declined, "technique": self.technique, "level_text": self.level_text, "level_note": self.level_note, "design_ref": self.design_ref}
+        return {"malformed_stream_cases_outside_model": self.declined, "code_variant": self.variant, "technique": self.technique, "level_text": self.level_text, "level_note": self.level_note, "design_ref": self.design_ref}
 
 
 C14.theorems = ["Pox.C14." + t for t in (
@@ -1221,7 +1257,9 @@ C14.theorems = ["Pox.C14." + t for t in (
     # phase 2 (Model/PacketExt.lean)
     "llc_roundtrip", "mpls_roundtrip", "lldp_roundtrip", "lldp_tlv_length", "eapol_roundtrip", "eap_roundtrip", "ipv6_hdr", "udp6_hdr", "tcp6_hdr",
     "icmp6_hdr", "icmp6_roundtrip", "echo6_roundtrip", "gre_hdr", "gre_roundtrip", "vxlan_roundtrip", "igmp_v2", "igmp_v3", "rip_roundtrip",
-    "xparse_eth_dispatch", "xparse_ipv4_dispatch", "xparse_udp_dispatch", "lldp_frame_roundtrip")]
+    "xparse_eth_dispatch", "xparse_ipv4_dispatch", "xparse_udp_dispatch", "lldp_frame_roundtrip",
+    # code variants (proposed repairs D50 / D49)
+    "rip_roundtrip_unsigned", "eap_roundtrip_body", "variant_head")]
 C14.level_text = (
     "Proved in Lean for all inputs: packet_utils.checksum (incl. start / skip_word, odd lengths) = RFC 1071 for data <= 128 KiB; generic struct pack/unpack round trip. "
     "Per class, hdr/parse round trip + every length field + every Internet checksum = RFC 1071 (and verifies at a receiver): "
@@ -1234,7 +1272,7 @@ C14.level_text = (
     "round-trip / RFC 1071 oracle on all 21 modules.")
 C14.level_note = (
     "The theorems are about hand-written models (Model/Checksum.lean, PacketLayout.lean, PacketHdr.lean, PacketExt.lean) of the code as committed (repairs D12, D13, D40-D44, D51, D22 are in); "
-    "they are tied to the code only by the differential run. PROVED per class (46 theorems): ethernet, vlan, arp, ipv4, udp, tcp, icmp(+echo, unreach, time_exceeded), llc, mpls, lldp, eapol, "
+    "they are tied to the code only by the differential run. PROVED per class (49 theorems): ethernet, vlan, arp, ipv4, udp, tcp, icmp(+echo, unreach, time_exceeded), llc, mpls, lldp, eapol, "
     "eap(success/failure), ipv6(fixed header), icmpv6(+echo), gre, vxlan, igmp, rip. The chain-level theorem (roundtrip/repack_id) covers stacks of the ten original classes only; for stacks "
     "containing the phase-2 classes the hand-over from Ethernet/IPv4/UDP is proved (xparse_*_dispatch) and the whole Ethernet+LLDP probe frame is proved (lldp_frame_roundtrip); other "
     "compositions are checked by the differential run, not proved. "
